@@ -464,6 +464,77 @@ def labeldom(ctx: Any) -> List[Ob]:
     return obs
 
 
+# smallest encodings: a question is a root label + type + class, a record a root label + type + class + ttl + rdlength
+_MIN_ENTRY = {'_num_questions': 5, '_num_answers': 11, '_num_authorities': 11, '_num_additionals': 11}
+
+
+def own_rejections(ctx: Any, R: str) -> List[Ob]:
+    """`Whenever a strict RFC 1035 parser accepts the datagram ... the decoded questions and records equal the strict parser's`:
+    the decoder refuses a datagram of its own accord (an explicit raise) only inside the name reader (malformed or over-long
+    names, hostile pointers).  Everywhere else -- header, section loops, rdata readers -- it runs out of bytes exactly where a
+    strict parser does or skips the record.  An explicit rejection added there is accepted only if it is a section-count bound
+    that a strict parser shares: `bytes left < sum(count_i * k_i)` with every k_i at most the smallest encoding of an entry
+    and a strict comparison; a bound that also refuses a datagram with no byte to spare refuses valid datagrams."""
+    from .common import local_defs
+
+    prog = ctx.prog
+    _, reg = region(ctx)
+    names_reg = {g.full for g in ctx.cg.closure([prog.func(INC + '._read_name')])}
+    obs: List[Ob] = []
+    examined = 0
+    for f in sorted(reg, key=lambda g: g.full):
+        if f.full in names_reg or f.cls is None or f.cls.full != INC:
+            continue
+        examined += 1
+        parents: Dict[int, ast.AST] = {}
+        for a in ast.walk(f.node):
+            for ch in ast.iter_child_nodes(a):
+                parents[id(ch)] = a
+        defs = local_defs(f)
+        me = f.params[0] if f.params else 'self'
+        for r in walk_local_ordered(f.node):
+            if not isinstance(r, ast.Raise) or r.exc is None:
+                continue
+            n: ast.AST = r
+            guard: Optional[ast.If] = None
+            in_handler = False
+            while id(n) in parents:
+                par = parents[id(n)]
+                if isinstance(par, ast.ExceptHandler):
+                    in_handler = True
+                if isinstance(par, ast.If) and guard is None and n in par.body:
+                    guard = par
+                n = par
+            if in_handler:
+                continue
+            why = 'unguarded rejection'
+            good = False
+            if guard is not None:
+                env: Dict[str, Any] = {}
+                try:
+                    sym = lf.default_sym(me)
+                    for _ in range(3):
+                        for k, vs in defs.items():
+                            if len(vs) == 1 and vs[0] is not None and k not in env:
+                                try:
+                                    env[k] = lf.poly(prog, f.module, vs[0], sym, env)
+                                except lf.NotLinear:
+                                    pass
+                    pl, op = lf.comparison(prog, f.module, guard.test, sym, env)
+                    if op == '<=':
+                        pl, op = lf.p_add(pl, lf.p_const(1), -1), '<'
+                    coef = {(k[0][0] if k else ''): v for k, v in pl.items() if len(k) <= 1 and (not k or k[0][1] == 1)}
+                    nonlin = [k for k in pl if len(k) > 1 or (k and k[0][1] != 1)]
+                    rest = {k: v for k, v in coef.items() if k not in _MIN_ENTRY and k not in ('', '_data_len', 'offset')}
+                    good = op == '<' and not nonlin and not rest and coef.get('_data_len') == 1 and coef.get('offset', 0) in (-1, 0) and all(-_MIN_ENTRY[k] <= v <= 0 for k, v in coef.items() if k in _MIN_ENTRY) and coef.get('', 0) >= (0 if coef.get('offset', 0) == -1 else -12)
+                    why = f'guard `{norm(guard.test)}` reads as {lf.p_str(pl)} {op} 0'
+                except lf.NotLinear as e:
+                    why = f'guard `{norm(guard.test)}` is not a linear bound ({e})'
+            obs.append(ob(R, f, r, 'outside the name reader the decoder refuses a datagram only on a section-count bound a strict parser shares (strict comparison, per-entry minimum sizes)', good, why))
+    obs.append(ob(R, prog.func(INC + '._read_name'), f'{examined} decoder methods outside the name reader examined', 'the decoder\'s own rejections are confined to the name reader or are shared by a strict parser', examined >= 6, ''))
+    return obs
+
+
 @rule('C02.FAITHFUL', 'N', expect_min=10)
 def faithful(ctx: Any) -> List[Ob]:
     """Two structural parts of `the decoded records equal the strict parser's`: the NSEC bitmap reader numbers the types as
@@ -472,7 +543,7 @@ def faithful(ctx: Any) -> List[Ob]:
     records themselves is C01.LAYOUT."""
     from .c01 import ctor_verbatim_obligations, frame_locals_obligations, nsec_reader_obligation, resume_position_obligations
 
-    return [nsec_reader_obligation(ctx, 'C02.FAITHFUL')] + ctor_verbatim_obligations(ctx, 'C02.FAITHFUL') + frame_locals_obligations(ctx, 'C02.FAITHFUL') + resume_position_obligations(ctx, 'C02.FAITHFUL')
+    return [nsec_reader_obligation(ctx, 'C02.FAITHFUL')] + ctor_verbatim_obligations(ctx, 'C02.FAITHFUL') + frame_locals_obligations(ctx, 'C02.FAITHFUL') + resume_position_obligations(ctx, 'C02.FAITHFUL') + own_rejections(ctx, 'C02.FAITHFUL')
 
 
 @rule('C02.STATELESS', 'N', expect_min=10)
